@@ -896,13 +896,15 @@ package collection
 //@   modifies mapof(c.data), lruHas[c.lruCache], lruN[c.lruCache], twRemoves
 
 //@ func (c *Cache) SetWithExpire
-//@   property C16
+//@   property C16 C12
 //@   flag old_at_lock
 //@   float real
 //@   requires c != nil && c.timingWheel != nil && expire >= 0 && mathx.UnstableOK(c.unstableExpiry)
 //@   ghost at after Unlock#0: had = ok
-//@   call MoveTimer#0: assert had && arg_key == key
-//@   call SetTimer#0: assert !had && arg_key == key && arg_value == value
+//@   ghost at after AroundDuration#0: exp = ret
+//@   call AroundDuration#*: assert arg_base == expire
+//@   call MoveTimer#0: assert had && arg_key == key && arg_delay == exp
+//@   call SetTimer#0: assert !had && arg_key == key && arg_value == value && arg_delay == exp
 //@   ensures  inDom(c.data, key) && c.data[key] == value
 //@   ensures  implies(lruLim[c.lruCache] > 0, len(c.data) <= lruLim[c.lruCache])
 //@   ensures  implies(lruLim[c.lruCache] <= 0, forall(s.(string), implies(s != key, inDom(c.data, s) == old(inDom(c.data, s)) && implies(inDom(c.data, s), c.data[s] == old(c.data[s])))))
